@@ -88,6 +88,24 @@ def gen(ctx):
         nt = rng.choice([2, 8, 16])
         progs = [",".join("s%d:%d" % (rng.randrange(len(exprs)), rng.randrange(3)) for _ in range(rng.randrange(3, 30))) for _ in range(nt)]
         cases.append("%d\t%s\t%s\t%s" % (nt, ",".join(C.hexs(e) for e in exprs), ";".join(docs), "|".join(progs)))
+    # hot custom-lookup cases: every thread resolves DIFFERENT custom function names of one shared runtime at the same time, hundreds of times
+    # (a lookup memo that is not updated atomically hands one name the other's function)
+    for _ in range(3 if ctx.tier == "quick" else 60):
+        exprs = ["cf(@)", "ap(&@, @)", "ap2(&type(@), @)", "cf(@, @)", "[cf(@), ap(&@, @), ap2(&@, @)]", "ap(&cf(@), @)", "ap2(&cf(@, `1`), @)", "cf(ap(&@, @))",
+                 "length(@)", "[*].cf(@)", "cf(ap2(&@, @), ap(&@, @))"]
+        docs = ["[ u3 u1 u2 ]", "[ s62 s61 ]", "{ s61 u1 }"]
+        nt = rng.choice([8, 16])
+        progs = [",".join("s%d:%d" % ((t + j) % 8 if rng.random() < 0.8 else rng.randrange(len(exprs)), rng.randrange(3)) for j in range(400)) for t in range(nt)]
+        cases.append("%d\t%s\t%s\t%s" % (nt, ",".join(C.hexs(e) for e in exprs), ";".join(docs), "|".join(progs)))
+    # replacement cases (two phases): after the workers have searched the shared compiled expressions, each one is REPLACED IN PLACE by another
+    # (same slot, same address) while the workers wait; the same workers then search the same slots again and must see the new expressions
+    for _ in range(6 if ctx.tier == "quick" else 150):
+        exprs = rng.sample(["a", "b", "length(@)", "keys(@)", "a || b", "[a, b]", "{x: a}", "`1`", "@", "type(a)", "sort_by(c, &@)", "c[0]", "c[?@ > `1`]", "!a", "a == b",
+                            "to_string(@)", "values(@)", "c[::-1]", "not_null(z, a)", "nope(@)", "a."], 6)
+        docs = ["{ s61 u1 s62 s78 s63 [ u3 u1 u2 ] }", "{ s61 n s62 t s63 [ ] }"]
+        nt = rng.choice([2, 8])
+        progs = [",".join("s%d:%d" % (rng.randrange(len(exprs)), rng.randrange(2)) for _ in range(rng.randrange(3, 12))) for _ in range(nt)]
+        cases.append("%d\t%s\t%s\t%s\trot" % (nt, ",".join(C.hexs(e) for e in exprs), ";".join(docs), "|".join(progs)))
     # deep-evaluation cases: every thread is deep inside nested evaluations (100 .. 300 frames: nested calls, chains, parentheses, nested
     # expression references) at the same time, hundreds of times: anything counted, pooled or budgeted per RUNTIME (or per process) instead of
     # per evaluation — a recursion guard, a scratch stack — sees the sum over all threads and answers differently than a sequential run
@@ -153,8 +171,8 @@ def run(ctx):
             ctx.violation("threads", c[:600], "threads: " + f["threads"][:300], "sequential: " + f.get("sequential", "")[:300],
                           "concurrent results differ from a sequential execution")
             continue
-        if C.hexs("ap(&") in c.split("\t")[1]:
-            continue          # the custom functions of these cases exist in the harness only: judged against the sequential run alone
+        if C.hexs("ap(&") in c.split("\t")[1] or c.endswith("\trot"):
+            continue          # harness-only custom functions / the two-phase replacement protocol: judged against the sequential run alone
         mm = (m or "NONE")
         if "FAULT" in mm:
             continue          # the model ran out of its evaluation fuel: no opinion (the sequential run has already been compared)
